@@ -56,6 +56,16 @@ M_YAML = "string-with-unicode-line-break-in-yaml-roundtrip"
 TYPESPEC = {"bool": bool, "str": str, "int": int, "optstr": Optional[str], "optint": Optional[int], "seqstr": Sequence[str]}
 BASE = [("b1", "bool", False), ("b2", "bool", True), ("s1", "str", "dflt"), ("s2", "str", ""), ("i1", "int", 0), ("i2", "int", 8080),
         ("os1", "optstr", None), ("os2", "optstr", "x"), ("oi1", "optint", None), ("oi2", "optint", 5), ("q1", "seqstr", []), ("q2", "seqstr", ["a", "b"])]
+# options that only cascading listeners assign (like intercept -> intercept_active in addons/intercept.py); the workload
+# never assigns them directly, so "src truthy => dst == f(src)" holds in every accepted state and a re-notification with a
+# restored state cannot change them
+DERIVED = [("d1", "bool", False), ("d2", "optint", None)]
+CASCADES = [
+    ref.Cascade("os1-set->d1", "os1", "d1", lambda v: True),
+    ref.Cascade("s2-set->d1", "s2", "d1", lambda v: True),
+    ref.Cascade("q1-nonempty->d2=len", "q1", "d2", lambda v: len(v)),
+]
+DERIVED_NAMES = {n for n, _, _ in DERIVED}
 LATE = [("ls", "str", "late"), ("li", "optint", None), ("lq", "seqstr", []), ("lb", "bool", False)]
 
 RULES = [
@@ -136,11 +146,29 @@ class Listener:
     def _seen(self, updated):
         snap = self.snapshot()
         self.calls.append((set(updated), snap))
-        for k in updated:
+        # a called listener can read every option: it observes the named options and everything in its scope (all options for
+        # a .changed receiver).  In particular the re-notification after a rollback shows it restored derived options too.
+        seen = set(updated) | (set(snap) if self.rule.scope is None else set(self.rule.scope))
+        for k in seen:
             if k in snap:
                 self.lastseen[k] = snap[k]
         if self.rule.rejects(snap):
             raise exceptions.OptionsError(f"rejected by {self.rule.name}")
+
+
+class CascadeListener:
+    """subscribe()d callback that reacts to its source option being set by a nested update of the derived option."""
+
+    def __init__(self, opts, cascade):
+        self.cascade = cascade
+        opts.subscribe(self.on_subscribed, [cascade.src])
+
+    def on_subscribed(self, opts, updated):
+        c = self.cascade
+        if c.src in updated:
+            v = getattr(opts, c.src)
+            if v:
+                opts.update(**{c.dst: c.f(v)})
 
 
 def real_values(opts):
@@ -164,15 +192,25 @@ def run_case(ctx, tmpdir):
     used = set()
     opts = optmanager.OptManager()
     model = ref.OptModel()
-    for name, kind, default in BASE:
+    for name, kind, default in BASE + DERIVED:
         opts.add_option(name, TYPESPEC[kind], default, "help " + name)
         model.add_option(name, kind, default)
+    derived_names = {n for n, _, _ in DERIVED}
     late = list(LATE)
     r.shuffle(late)
     rules = r.sample(RULES, r.randint(2, 5))
     # a rule that looks at a late option is only meaningful once the option exists: Rule.rejects() treats KeyError as "accept"
     model.rules = rules
-    listeners = [Listener(opts, rule) for rule in rules]
+    model.cascades = r.sample(CASCADES, r.choice([0, 1, 1, 2, 2, 3]))
+    # subscription order matters: subscribe()d callbacks run in this order, before the .changed receivers
+    plan = [("rule", x) for x in rules] + [("cascade", x) for x in model.cascades]
+    r.shuffle(plan)
+    listeners, cascaders = [], []
+    for what, x in plan:
+        if what == "rule":
+            listeners.append(Listener(opts, x))
+        else:
+            cascaders.append(CascadeListener(opts, x))
     n_ops = r.choice([5, 10, 15, 25, 40])
     hist = []
     feats = {"ops": set(), "outcomes": set(), "multi_ok": False, "raised": False, "rt_hostile": False}
@@ -181,7 +219,7 @@ def run_case(ctx, tmpdir):
         os.unlink(path)
 
     def names(p_unknown=0.0, k=None):
-        pool = list(model.kinds)
+        pool = [n for n in model.kinds if n not in derived_names]
         out = r.sample(pool, k or r.choice([1, 1, 2, 2, 3]))
         if r.random() < p_unknown:
             unk = r.choice(["nosuch", "typo_opt"] + [n for n, _, _ in late])
@@ -207,6 +245,7 @@ def run_case(ctx, tmpdir):
             l.calls.clear()
         expect_raise = set()  # acceptable error classes; empty = must be accepted
         assign = {}  # what an accepted operation assigns
+        derived = {}  # what cascading listeners set in reaction to it
         notified = None  # names listeners must be told (None = same as assign)
         mech_hint = None  # (mechanism, predicted surplus assignment) computed from the operation's input only
         desc = op
@@ -217,6 +256,7 @@ def run_case(ctx, tmpdir):
             out = model.predict(kw)
             if out[0] == "ok":
                 assign.update(kw)
+                derived.update(out[2])
             else:
                 expect_raise.add(out[0])
             return out
@@ -227,7 +267,7 @@ def run_case(ctx, tmpdir):
             elif op == "setattr":
                 kw = make_assign(p_wrong=0.1, p_unknown=0.0, k=1)
             elif op == "toggle":
-                n = r.choice([n for n, k in model.kinds.items() if k == "bool"])
+                n = r.choice([n for n, k in model.kinds.items() if k == "bool" and n not in derived_names])
                 kw = {n: not model.values[n]}
             else:
                 kw = make_assign(p_wrong=0.0, p_unknown=0.0, k=1)
@@ -340,7 +380,7 @@ def run_case(ctx, tmpdir):
             problems.append(("wrong-error-class", {"raised": raised, "expected": sorted(expect_raise)}))
 
         if not expect_raise:
-            model.commit(assign)
+            model.commit(assign, derived)
         ctx.count("values")
         real = real_values(opts)
         dv = diff(real, model.values)
@@ -357,10 +397,14 @@ def run_case(ctx, tmpdir):
         for l in listeners:
             scope = set(real) if l.rule.scope is None else set(l.rule.scope)
             if not raised and not expect_raise and tell:
-                want = 1 if l.rule.hears(tell) else 0
+                # one call for the operation itself (if in scope) plus, for .changed receivers, one per nested update made
+                # by a cascading listener
+                want = [tell] if l.rule.hears(tell) else []
+                if l.rule.scope is None and notified is None and op != "reset":
+                    want += [{c.dst} for c in model.cascades if c.fires(assign.keys(), model.values)]
                 got = [u for u, _ in l.calls]
-                if len(got) != want or any(u != tell for u in got):
-                    problems.append(("notification-differs", {"listener": l.rule.name, "calls": [sorted(u) for u in got], "expected": sorted(tell) if want else None}))
+                if sorted(map(sorted, got)) != sorted(map(sorted, want)):
+                    problems.append(("notification-differs", {"listener": l.rule.name, "calls": [sorted(u) for u in got], "expected": [sorted(u) for u in want]}))
             stale = sorted(k for k in scope if k in real and not ref.same(l.lastseen.get(k), real[k]))
             if stale:
                 problems.append(("listener-view-outdated", {"listener": l.rule.name, "options": stale}))
@@ -380,7 +424,8 @@ def run_case(ctx, tmpdir):
             if diff(real_values(opts), model.values):
                 break
 
-    sig = (tuple(sorted(feats["ops"])), tuple(sorted(feats["outcomes"])), tuple(sorted(used)), tuple(sorted(x.name[:6] for x in rules)))
+    sig = (tuple(sorted(feats["ops"])), tuple(sorted(feats["outcomes"])), tuple(sorted(used)), tuple(sorted(x.name[:6] for x in rules)),
+           tuple(sorted(c.name[:6] for c in model.cascades)))
     nontrivial = feats["multi_ok"] and feats["raised"] and feats["rt_hostile"]
     ctx.case(sig, nontrivial, {"history": hist[:30]})
 
@@ -424,7 +469,7 @@ def gen_specs(r, model, used, late):
             n = r.choice(["nosuch"] + [x for x, _, _ in late])
             specs.append(f"{n}={r.choice(['1', 'x', 'true', ''])}" if r.random() < 0.8 else n)
             continue
-        n = r.choice(list(model.kinds))
+        n = r.choice([x for x in model.kinds if x not in DERIVED_NAMES])
         kind = model.kinds[n]
         x = r.random()
         if kind == "bool":
